@@ -429,6 +429,9 @@ class MarkdownNormalizer(Renderer):
         with self.container("> ", "> "):
             result = self.render_children(element).rstrip("\n")
         self._prefix = self._second_prefix
+        # A heading at the end of the quote has had its blank line stripped just above, so the
+        # blank line that follows the quote must not be skipped (it separates it from a next quote).
+        self._skip_next_blank_line = False
         # After rendering a quote block, don't suppress the next item break
         # This ensures proper spacing after list items with quote blocks
         self._suppress_item_break = False
@@ -750,6 +753,7 @@ class MarkdownNormalizer(Renderer):
             result = self.render_children(element).rstrip("\n")
 
         self._prefix = self._second_prefix
+        self._skip_next_blank_line = False
         # After rendering an alert block, don't suppress the next item break
         self._suppress_item_break = False
         return f"{alert_header}{result}\n"
